@@ -47,9 +47,11 @@ func TraverseAST(node ast.Node, env *Pass1) ast.Node {
 			return nil // またはエラーを適切に処理します
 		}
 
-		// 評価済みの値には、この時点で定義済みの EQU 名は残っていない。それでも自分自身の名前が残っている場合
-		// (A EQU A、または A EQU B / B EQU A の 2 つ目) は循環定義で、使われた時点で Eval が無限に再帰する。
-		if mentionsIdent(evalValueExp, n.Id.Value) {
+		// 値の中に (直接、または値に現れる他の EQU 名の定義をたどって) 自分自身の名前が現れる場合
+		// (A EQU A、A EQU B / B EQU A の 2 つ目、A EQU Q / Q EQU (A+R)+S など) は循環定義で、
+		// 使われた時点で Eval が無限に再帰する。Eval は括弧付きの項を展開せずに返すことがあるので、
+		// 評価済みの値だけでなく定義をたどって調べる。
+		if equReaches(evalValueExp, n.Id.Value, env, map[string]bool{}) {
 			log.Printf("error: EQU '%s' is defined in terms of itself (%s); definition ignored", n.Id.Value, evalValueExp.TokenLiteral())
 			return nil
 		}
@@ -267,7 +269,25 @@ func (p *Pass1) LookupMacro(name string) (ast.Exp, bool) {
 	return exp, ok
 }
 
-// mentionsIdent は、式の中に識別子 name が現れるかどうかを返します (EQU の循環定義の検出用)。
+// equReaches は、式 exp から識別子 name に到達できるかどうかを返します: name が exp に直接現れるか、
+// exp に現れる EQU 名の値から (再帰的に) 到達できる場合に true (EQU の循環定義の検出用)。
+func equReaches(exp ast.Exp, name string, env *Pass1, seen map[string]bool) bool {
+	if mentionsIdent(exp, name) {
+		return true
+	}
+	for id, value := range env.MacroMap {
+		if seen[id] || !mentionsIdent(exp, id) {
+			continue
+		}
+		seen[id] = true
+		if equReaches(value, name, env, seen) {
+			return true
+		}
+	}
+	return false
+}
+
+// mentionsIdent は、式の中に識別子 name が現れるかどうかを返します。
 func mentionsIdent(exp ast.Exp, name string) bool {
 	switch e := exp.(type) {
 	case *ast.NumberExp:
